@@ -228,7 +228,7 @@ theorem getLocal_ok_branch (ok : CfgOk c) (m m1 : Mem) (order cls loc row : Nat)
     · rw [if_neg hne]
       exact Runs.pure hfin
   | error e =>
-    obtain ⟨rfl, rfl⟩ := hlr
+    obtain ⟨rfl, rfl, _⟩ := hlr
     simp only
     apply Runs.bind (tput_spec ok inv1 (row / c.g.treeRows) (2 ^ order) hlt (by simp))
     rintro _ m3 ⟨inv3, same3⟩
